@@ -28,6 +28,7 @@
 #include "runtime/d_string.h"
 
 #include <algorithm>
+#include <cmath>
 
 using namespace vd;
 using sqf::runtime::value;
@@ -67,6 +68,38 @@ namespace
         j.set("null", c.is_null());
         j.set("at", c.is_null() ? J::arr() : names_json(logical_path(host, c)));
         return j;
+    }
+    // config values: like vd::proj, but whole numbers that do not fit TLC's 32 bit integers are
+    // written as {"t":"N","N":"<decimal digits>"} (hexadecimal config literals reach 2^32), and
+    // anything that is not a whole finite number as {"t":"f","f":"<printed>"} (e.g. nan)
+    J vproj(const value& v, int depth = 0)
+    {
+        if (!v.empty() && v.is<sqf::runtime::t_scalar>())
+        {
+            float f = v.data<sqf::types::d_scalar, float>();
+            J j = J::obj();
+            if (std::isfinite(f) && std::floor(f) == f)
+            {
+                if (std::fabs(f) < 1e9f) { j.set("t", "n").set("n", (long long)f); }
+                else
+                {
+                    char buf[64];
+                    snprintf(buf, sizeof(buf), "%.0f", (double)f);
+                    j.set("t", "N").set("N", std::string(buf));
+                }
+            }
+            else { j.set("t", "f").set("f", v.to_string_sqf()); }
+            return j;
+        }
+        if (!v.empty() && v.is<sqf::runtime::t_array>() && depth < 8)
+        {
+            J arr = J::arr();
+            for (auto& e : *v.data<sqf::types::d_array>()) { arr.push(vproj(e, depth + 1)); }
+            J j = J::obj();
+            j.set("t", "a").set("a", arr);
+            return j;
+        }
+        return proj(v, depth);
     }
     bool chain_cyclic(confignav start)
     {
@@ -173,7 +206,7 @@ static bool eval_row(runner& r, sqf::runtime::confighost& host, const std::strin
     o.set("null", isnull).set("at", cj.at("at"));
     o.set("nullop", as_bool(elem(r1, 1)));
     o.set("isn", as_bool(elem(r1, 2))).set("ist", as_bool(elem(r1, 3))).set("isa", as_bool(elem(r1, 4))).set("isc", as_bool(elem(r1, 5)));
-    o.set("num", proj(elem(r1, 6))).set("txt", proj(elem(r1, 7))).set("arr", proj(elem(r1, 8)));
+    o.set("num", vproj(elem(r1, 6))).set("txt", vproj(elem(r1, 7))).set("arr", vproj(elem(r1, 8)));
     // 2. operators that raise an error on configNull: only on entries that exist
     J inh = J::obj(); inh.set("null", true).set("at", J::arr());
     J hier = J::arr(), sel = J::arr();
@@ -312,7 +345,7 @@ static void cmd_config(const J& c)
         J o = ev("Obs");
         o.set("k", "q").set("q", kind).set("path", path).set("res", r.res);
         if (!res.empty() && res.is<sqf::runtime::t_config>()) { o.set("r", cfg_json(host, res)); }
-        else { o.set("r", proj(res)); }
+        else { o.set("r", vproj(res)); }
         emit(o);
     }
 }
